@@ -39,6 +39,11 @@ def cases(rng, tier):
     # lengths at / next to powers of two and round thousands, and lengths whose BLOB COUNT (N-4, N-5) is such a number
     for sq in gen.boundary_seqs(rng, tier != "quick"):
         yield Case(["q delta " + sq, "q dform %s 5" % sq, "q dform %s 6" % sq], {"kind": "boundary-length"})
+    # delta asked after kappa / delta-max on one object, for sequences whose own delta lies ABOVE the heuristic delta-max (reporting band
+    # and beyond) - and on objects that inherited a delta-max from their parent
+    for sq in gen.CLAMP_BAND + gen.ABOVE_MAX + ["DSGSAGEE", "KRGSQGAK", "SDEDEEGA", "ESKRKGAD", "GSGEKGSGEEEEEDDDDDEEEEE"] + gen.block_arrangements(rng, 10 if tier == "quick" else 60):
+        pre = rng.sample(["kappa", "dmax", "dmaxperm", "kappa"], 2)
+        yield Case(["new 0 " + sq] + ["o 0 " + q for q in pre] + ["o 0 delta", "o 0 sigma", "o 0 dform 5"], {"kind": "delta-after-delta-max", "judge_from": 3})
     # the same query several times in a row on one object
     for c in gen.repeated_call_cases(rng, 8 if tier == "quick" else 60, ['delta'], gen.CLAMP_BAND[:8] if False else ()):
         yield c
